@@ -136,15 +136,23 @@ where
                 Act::Nth(k) => it2.nth(k),
                 Act::NextBack | Act::NthBack(_) => (back.unwrap())(&mut it2, act),
             };
-            (r, it2.size_hint())
+            // The consuming adaptors of the Iterator trait (the library may specialise them) on clones of the
+            // iterator in this state: how many items are left, and which one is last.
+            let rest = if q2.len() <= 64 { Some((it2.clone().count(), it2.clone().last())) } else { None };
+            (r, it2.size_hint(), rest)
         });
         let want_hint = if w.exact { (q2.len(), Some(q2.len())) } else { (0, None) };
         let ok = match got {
-            Ok((r, hint)) => {
-                let hint_ok = !w.exact || hint == want_hint;
+            Ok((r, hint, rest)) => {
+                // Exact-size iterators report the exact remainder; the others any valid bounds.
+                let hint_ok = if w.exact { hint == want_hint } else { hint.0 <= q2.len() && hint.1.map(|u| u >= q2.len()).unwrap_or(true) };
                 let name = &w.name;
                 let exhausted = after_exhaustion;
-                w.ctx.expect(|| format!("{}.{}{}", name, act_name(act), if exhausted { "[after None]" } else { "" }), Ok((r, if hint_ok { want_hint } else { hint })), &(want.clone(), want_hint), case)
+                let mut ok = w.ctx.expect(|| format!("{}.{}{}", name, act_name(act), if exhausted { "[after None]" } else { "" }), Ok((r, if hint_ok { want_hint } else { hint })), &(want.clone(), want_hint), case);
+                if let (true, Some(rest)) = (ok, rest) {
+                    ok = w.ctx.expect(|| format!("{}.{}; count(), last()", name, act_name(act)), Ok(rest), &(q2.len(), q2.back().cloned()), case);
+                }
+                ok
             }
             Err(msg) => {
                 w.ctx.panic_violation(&format!("{}.{}", w.name, act_name(act)), &msg, Some(format!("{:?}", want)), case);
